@@ -11,6 +11,7 @@ import (
 	"errors"
 	"flag"
 	"fmt"
+	"go.uber.org/zap"
 	"os"
 	"sort"
 	"strconv"
@@ -162,7 +163,11 @@ func tick() time.Time {
 func newRunner(h History) *runner {
 	r := &runner{h: h, enc: &recEnc{budget: h.Budget}, logins: map[*auditevent.AuditEvent]int{},
 		events: map[*aucoalesce.Event]int{}, evByID: map[int]*HEvent{}, logByID: map[int]*HLogin{}}
-	r.tr = sessiontracker.NewSessionTracker(auditevent.NewAuditEventWriter(r.enc), nil)
+	var lg *zap.SugaredLogger
+	if h.Debug {
+		lg = hutil.Logger(true)
+	}
+	r.tr = sessiontracker.NewSessionTracker(auditevent.NewAuditEventWriter(r.enc), lg)
 	return r
 }
 
@@ -515,6 +520,9 @@ func main() {
 		st := stats(h, res)
 		sum.Count(fmt.Sprint(h.Ops, h.Budget), st.nontrivial)
 		sum.Dist("mode_" + m)
+		if h.Debug {
+			sum.Dist("debug_logging_on")
+		}
 		sum.Dist(fmt.Sprintf("sessions_%d", len(h.Plans)))
 		sum.Dist(fmt.Sprintf("ops_%02d-%02d", len(h.Ops)/10*10, len(h.Ops)/10*10+9))
 		sum.Dist(fmt.Sprintf("max_open_%d", st.maxOpen))
